@@ -660,6 +660,19 @@ pub fn gen_c13(out: &mut Out, rng: &mut Rng, thorough: bool) {
                 monitor_line(out, &format!("{head} | call {rq} w={w} r=d{}", hex_raw(&reply)));
             }
         }
+        // the transport takes every byte of the request and then fails the flush (with the reply
+        // already waiting): a failure while sending, so a transport error
+        for fault in ["xk1", "xk4", "xbp", "xot", "p,xk2", "p,p,xk3"] {
+            let g = rng.range(1, reqf.len());
+            let mut w = vec![];
+            let mut left = reqf.len();
+            while left > 0 {
+                w.push(format!("a{}", g.min(left)));
+                left = left.saturating_sub(g);
+            }
+            monitor_line(out, &format!("{head} | call {rq} w={} f={fault} r=d{}", w.join(","), hex_raw(&reply)));
+            monitor_line(out, &format!("{head} | call {rq} f={fault} r=d{}", hex_raw(&reply)));
+        }
         // every write granularity, with pending patterns: the frame still arrives once, in order
         for g in 1..=reqf.len().min(9) {
             let mut w = vec![];
@@ -714,6 +727,13 @@ pub fn mon_c13(out: &mut Out, l: &str, r: &str) {
     if let Some(fault) = write_fault {
         let expect = if fault == "z" || fault == "a0" { "tr:wz".to_string() } else { format!("tr:{}", &fault[1..]) };
         out.check(got == expect, || format!("write fault `{fault}` must surface as `{expect}`, got `{got}`"), l);
+        return;
+    }
+    // the flush after the last byte fails: still a failure while sending
+    let fevs = field("f", &o.fields);
+    if let Some(fault) = fevs.split(',').find(|e| e.starts_with('x')) {
+        let expect = format!("tr:{}", &fault[1..]);
+        out.check(got == expect, || format!("flush fault `{fault}` must surface as `{expect}`, got `{got}`"), l);
         return;
     }
     // no write fault: the frame arrives exactly once, in order
